@@ -20,6 +20,9 @@ func Describe(id string) runner.Description {
 		d.Rule = "one case = one seeded run (1-2 packages of drawn type x 2 versions; streams with 0-3 objects, wrong/missing/duplicate metadata, forbidden kinds, Crossplane constraints with/without ignore flag, annotated/plain/multi-annotated images; version switches; cache damaged, disk faults and crashes during the cache tee; API faults and crashes); non-trivial = at least one fault fired or two tasks interleaved; distinct = distinct trace hash"
 	case "C16":
 		d.Rule = "one case = one seeded run (packages sharing object names; cluster objects pre-existing uncontrolled or controlled by a stranger; an API-server rejection for one object; upgrade and rollback between two versions with active/inactive revisions reconciled in any order; garbage collector interleaved; user-data instances of package CRDs; API faults and crashes); non-trivial = at least one fault fired or two tasks interleaved; distinct = distinct trace hash"
+	case "C17":
+		d.World = "W-pkg with the real dependency resolver: resolver.Reconciler, manager and revision reconcilers (with PackageDependencyManager and both DAG implementations) on the simulated API server and registry"
+		d.Rule = "one case = one seeded run (2-4 dependency repositories with unsorted, partly non-semver tag lists and per-version dependencies, 1-2 root Configurations; random dependency graphs incl. diamonds, self loops and cycles; constraint strings: ranges, exact, digests, invalid, unsatisfiable; upgrade and downgrade options drawn; tags published during the run; API and registry faults, crashes); non-trivial = at least one fault fired or two tasks interleaved; distinct = distinct trace hash"
 	}
 	return d
 }
